@@ -8,6 +8,7 @@ import IwModel.Lemmas.Avl
 import IwModel.Lemmas.HMapRef
 import IwModel.Lemmas.Arr
 import IwModel.Lemmas.Ring
+import IwModel.Lemmas.RingRef
 /-!
 C18: containers behave as their plain reference models for every call sequence.
 
@@ -412,6 +413,132 @@ theorem ring_last_n (junk : α) (len : Nat) (hlen : 1 ≤ len) (xs : List α) :
   exact iterAll_of_inv len _ xs this
 
 example : iterAll ([1, 2, 3, 4].foldl put (create 0 3)) = [4, 3, 2] := by decide
+
+/-- calls of the ring API that change the ring -/
+inductive RbOp (α : Type) where
+  | put (x : α) | back | clear
+
+def rbStep (r : Ring α) : RbOp α → Ring α
+  | .put x => put r x
+  | .back => back r
+  | .clear => clear r
+
+/-- the plain two-list reference (`Ring.RRef`): cells before the cursor, cells after it -/
+def rbRef (L : Nat) (s : RRef α) : RbOp α → RRef α
+  | .put x => s.put L x
+  | .back => s.back
+  | .clear => s.clear
+
+theorem ring_rep (junk : α) (len : Nat) (hlen : 1 ≤ len) (ops : List (RbOp α)) :
+    Rep len (ops.foldl rbStep (create junk len)) (ops.foldl (rbRef len) {}) := by
+  suffices H : ∀ (ops : List (RbOp α)) r s, Rep len r s → Rep len (ops.foldl rbStep r) (ops.foldl (rbRef len) s) from
+    H ops _ _ (rep_create junk len)
+  intro ops
+  induction ops with
+  | nil => intro r s h; exact h
+  | cons op ops ih =>
+    intro r s h
+    apply ih
+    cases op with
+    | put x => exact rep_put hlen h x
+    | back => exact rep_back h
+    | clear => exact rep_clear h
+
+/-- **ring buffer = the two-list reference for every history of `put / back / clear`** on a ring of `len ≥ 1`
+cells, wrapped or not: what the iterator loop of `iwrb.c` (`iwrb_iter_init / iwrb_iter_prev`, modelled branch by
+branch) yields, what `iwrb_peek` returns and `iwrb_num_cached` are those of the reference; the cursor never
+leaves the buffer -/
+theorem ring_refines_ref (junk : α) (len : Nat) (hlen : 1 ≤ len) (ops : List (RbOp α)) :
+    let r := ops.foldl rbStep (create junk len)
+    let s := ops.foldl (rbRef len) ({} : RRef α)
+    iterList r = s.iter ∧ peek r = s.peek ∧ numCached r = s.num len ∧ r.pos.natAbs ≤ r.buf.length := by
+  intro r s
+  have h : Rep len r s := ring_rep junk len hlen ops
+  obtain ⟨h1, h2, h3⟩ := rep_obs h
+  have hb := rep_bounds h
+  refine ⟨?_, h2, h3, hb⟩
+  rw [iterList_eq_iterAll r (by rw [h.1]; exact hlen) hb, h1]
+
+/-- `iwrb_peek` returns the element the iterator yields first (the newest one), in every reachable state -
+also on a wrapped ring and after any number of `iwrb_back` calls -/
+theorem ring_peek_newest (junk : α) (len : Nat) (hlen : 1 ≤ len) (ops : List (RbOp α)) :
+    peek (ops.foldl rbStep (create junk len)) = (iterList (ops.foldl rbStep (create junk len))).head? := by
+  obtain ⟨h1, h2, _, _⟩ := ring_refines_ref junk len hlen ops
+  rw [h1, h2]
+  have h := ring_rep junk len hlen ops
+  unfold RRef.peek RRef.iter
+  cases ha : (ops.foldl (rbRef len) ({} : RRef α)).a with
+  | nil =>
+    obtain ⟨_, rest, _, hc⟩ := h
+    cases hw : (ops.foldl (rbRef len) ({} : RRef α)).wrapped with
+    | true => rw [hw, ha] at hc; simp at hc
+    | false => rw [hw] at hc; simp at hc; simp [hc.1]
+  | cons y a' => rfl
+
+/-- what `iwrb_back` does in every reachable state `r`:
+* ring not yet wrapped (`pos < 0`): a true pop - the newest element disappears, `num_cached` drops by one;
+* wrapped ring, cursor beyond cell 1: **nothing is discarded** - the newest element becomes the oldest one the
+  iterator yields (a rotation), `num_cached` stays `len`;
+* wrapped ring, cursor at cell 1: the ring reports empty (`num_cached = 0`, `peek = NULL`, the iterator yields
+  nothing) although all `len` cells still hold values. -/
+theorem ring_back_spec (junk : α) (len : Nat) (hlen : 1 ≤ len) (ops : List (RbOp α)) :
+    let r := ops.foldl rbStep (create junk len)
+    (r.pos < 0 → iterList (back r) = (iterList r).tail ∧ numCached (back r) + 1 = numCached r) ∧
+    (r.pos > 1 → iterList (back r) = (iterList r).tail ++ (iterList r).head?.toList ∧
+        numCached (back r) = len ∧ numCached r = len) ∧
+    (r.pos = 1 → iterList (back r) = [] ∧ numCached (back r) = 0 ∧ peek (back r) = none ∧ numCached r = len) := by
+  intro r
+  obtain ⟨h1, _, h3, _⟩ := ring_refines_ref junk len hlen ops
+  obtain ⟨g1, g2, g3, _⟩ := ring_refines_ref junk len hlen (ops ++ [.back])
+  simp only [List.foldl_append, List.foldl_cons, List.foldl_nil, rbStep, rbRef] at g1 g2 g3
+  have h := ring_rep junk len hlen ops
+  change iterList r = _ at h1
+  change numCached r = _ at h3
+  change iterList (back r) = _ at g1
+  change peek (back r) = _ at g2
+  change numCached (back r) = _ at g3
+  change Rep len r _ at h
+  generalize ops.foldl (rbRef len) ({} : RRef α) = s at h1 h3 g1 g2 g3 h
+  obtain ⟨_, rest, _, hc⟩ := h
+  rw [h1, h3, g1, g3, g2]
+  cases hw : s.wrapped with
+  | false =>
+    rw [hw] at hc
+    simp only [Bool.false_eq_true, if_false] at hc
+    obtain ⟨hb, hpos⟩ := hc
+    have e : s.back = { s with a := s.a.tail } := by unfold RRef.back; rw [hw]
+    refine ⟨fun hneg => ?_, fun hgt => by omega, fun h1 => by omega⟩
+    rw [e]
+    cases ha : s.a with
+    | nil => rw [ha] at hpos; simp at hpos; omega
+    | cons y a' => simp [RRef.iter, RRef.num, hw, ha, hb]
+  | true =>
+    rw [hw] at hc
+    simp only [if_true] at hc
+    obtain ⟨hrest, hpos, hge⟩ := hc
+    refine ⟨fun hneg => by omega, fun hgt => ?_, fun h1 => ?_⟩
+    · cases ha : s.a with
+      | nil => rw [ha] at hge; simp at hge
+      | cons y a' =>
+        cases ha' : a' with
+        | nil => rw [ha, ha'] at hpos; simp at hpos; omega
+        | cons z a'' =>
+          have e : s.back = { a := a', b := s.b ++ [y], wrapped := true } := by
+            unfold RRef.back; rw [hw, ha, ha']
+          rw [e]
+          simp [RRef.iter, RRef.num, hw, ha, ha']
+    · cases ha : s.a with
+      | nil => rw [ha] at hge; simp at hge
+      | cons y a' =>
+        cases ha' : a' with
+        | nil =>
+          have e : s.back = {} := by unfold RRef.back; rw [hw, ha, ha']
+          rw [e]
+          simp [RRef.iter, RRef.num, RRef.peek, hw]
+        | cons z a'' => rw [ha, ha'] at hpos; simp at hpos; omega
+
+/-- the wrapped-ring behaviour of `iwrb_back` really occurs: after four puts into three cells, `back` rotates -/
+example : iterList (back ([1, 2, 3, 4, 5].foldl put (create 0 3))) = [4, 3, 5] := by decide
 
 end RING
 
